@@ -6,7 +6,7 @@ from ..model import Program, AnalysisError, own_nodes, norm, names_in, FuncInfo,
 from ..cfg import cfg_of
 from ..guards import Env, walk
 from ..report import Report
-from ..util import callee_last, parents, enclosing_stmt, depends_on
+from ..util import helper_scopes, callee_last, parents, enclosing_stmt, depends_on
 
 FM = 'fggs.formats'
 
@@ -141,53 +141,64 @@ def discriminators(rep: Report, prog: Program) -> None:
 
 def index_checks(rep: Report, prog: Program) -> None:
     rule = 'C14-D2 two-sided-index-check'
-    f = prog.func(FM, 'json_to_hrg')
-    cfg = cfg_of(f)
-    p0 = f.positional_params()[0]
-    jdeps = depends_on(f, {p0})
-    # local lists built by append
-    built = {x.func.value.id for x in own_nodes(f.node) if isinstance(x, ast.Call) and isinstance(x.func, ast.Attribute)
-             and x.func.attr == 'append' and isinstance(x.func.value, ast.Name)}
+    top = prog.func(FM, 'json_to_hrg')
+    p0 = top.positional_params()[0]
+    top_jdeps = depends_on(top, {p0})
+
+    def appended(g):
+        return {x.func.value.id for x in own_nodes(g.node) if isinstance(x, ast.Call) and isinstance(x.func, ast.Attribute)
+                and x.func.attr == 'append' and isinstance(x.func.value, ast.Name)}
+    top_built = appended(top)
     found = 0
-    for lp in [n for n in own_nodes(f.node) if isinstance(n, ast.For)]:
-        if not isinstance(lp.target, ast.Name) or not (names_in(lp.iter) & jdeps):
-            continue
-        iv = lp.target.id
-        uses = [x for x in ast.walk(lp) if isinstance(x, ast.Subscript) and isinstance(x.ctx, ast.Load)
-                and isinstance(x.slice, ast.Name) and x.slice.id == iv and isinstance(x.value, ast.Name) and x.value.id in built]
-        if not uses:
-            continue
-        hdr = cfg.node_of(lp)
-        body_entry = [b for b, l in cfg.succ[hdr] if l == 'iter'][0]
-        for u in uses:
-            found += 1
-            L = u.value.id
-            unode = cfg.node_of(enclosing_stmt(f, u))
-            raises = {n for n, nd in cfg.nodes.items() if nd.kind == 'raise'}
-            handlers = [b for b, l in cfg.succ[unode] if l == 'exc']
-            bad = []
-            for v in (-2, -1, 0, 1, 2, 3):
-                env = Env(ints={iv: v, f"len({L})": 2})
-                r = walk(cfg, body_entry, env, loop_header_stop=hdr, stop=lambda n: n in raises, unknown='both')
-                reached = unode in r
-                in_range = 0 <= v < 2
-                if in_range and not reached:
-                    bad.append(f"{iv}={v} (valid) never reaches {norm(u)}")
-                if v < 0 and reached:
-                    bad.append(f"{iv}={v} reaches {norm(u)} unchecked: Python indexes from the end instead of rejecting")
-                if v >= 2 and reached:
-                    # acceptable only if an IndexError handler turns it into a raise
-                    okh = False
-                    for h in handlers:
-                        ht = cfg.nodes[h].expr
-                        if ht is not None and 'IndexError' in norm(ht):
-                            rr = cfg.reachable([h], stop=lambda n: n in raises)
-                            if not ({hdr, cfg.exit} & rr) and (rr & raises):
-                                okh = True
-                    if not okh:
-                        bad.append(f"{iv}={v} (>= len) reaches {norm(u)} without a handler that raises")
-            rep.ob(rule, f.fq(), f"{norm(u)} with {iv} from {norm(lp.iter)}", f.loc(u), not bad,
-                   '; '.join(bad) if bad else f"reached exactly for 0 <= {iv} < len({L}); other values raise (values -2..3 with len=2 evaluated)")
+    # the reader itself and the helpers it hands JSON data to (an extracted lookup loop is checked in the helper, with the
+    # helper's parameters taking the roles of the caller's arguments)
+    for f, ren in helper_scopes(prog, top):
+      if f is top:
+          jdeps, built = top_jdeps, top_built
+      else:
+          jdeps = depends_on(f, {p for p, a in ren.args.items() if names_in(a) & top_jdeps})
+          built = appended(f) | {p for p, a in ren.args.items() if isinstance(a, ast.Name) and a.id in top_built}
+      cfg = cfg_of(f)
+      for lp in [n for n in own_nodes(f.node) if isinstance(n, ast.For)]:
+          if not isinstance(lp.target, ast.Name) or not (names_in(lp.iter) & jdeps):
+              continue
+          iv = lp.target.id
+          uses = [x for x in ast.walk(lp) if isinstance(x, ast.Subscript) and isinstance(x.ctx, ast.Load)
+                  and isinstance(x.slice, ast.Name) and x.slice.id == iv and isinstance(x.value, ast.Name) and x.value.id in built]
+          if not uses:
+              continue
+          hdr = cfg.node_of(lp)
+          body_entry = [b for b, l in cfg.succ[hdr] if l == 'iter'][0]
+          for u in uses:
+              # a helper's site stands for every call that feeds it JSON data
+              found += 1 if f is top else max(1, sum(1 for c in own_nodes(top.node) if isinstance(c, ast.Call) and isinstance(c.func, ast.Name) and c.func.id == f.name))
+              L = u.value.id
+              unode = cfg.node_of(enclosing_stmt(f, u))
+              raises = {n for n, nd in cfg.nodes.items() if nd.kind == 'raise'}
+              handlers = [b for b, l in cfg.succ[unode] if l == 'exc']
+              bad = []
+              for v in (-2, -1, 0, 1, 2, 3):
+                  env = Env(ints={iv: v, f"len({L})": 2})
+                  r = walk(cfg, body_entry, env, loop_header_stop=hdr, stop=lambda n: n in raises, unknown='both')
+                  reached = unode in r
+                  in_range = 0 <= v < 2
+                  if in_range and not reached:
+                      bad.append(f"{iv}={v} (valid) never reaches {norm(u)}")
+                  if v < 0 and reached:
+                      bad.append(f"{iv}={v} reaches {norm(u)} unchecked: Python indexes from the end instead of rejecting")
+                  if v >= 2 and reached:
+                      # acceptable only if an IndexError handler turns it into a raise
+                      okh = False
+                      for h in handlers:
+                          ht = cfg.nodes[h].expr
+                          if ht is not None and 'IndexError' in norm(ht):
+                              rr = cfg.reachable([h], stop=lambda n: n in raises)
+                              if not ({hdr, cfg.exit} & rr) and (rr & raises):
+                                  okh = True
+                      if not okh:
+                          bad.append(f"{iv}={v} (>= len) reaches {norm(u)} without a handler that raises")
+              rep.ob(rule, f.fq(), f"{norm(u)} with {iv} from {norm(lp.iter)}", f.loc(u), not bad,
+                     '; '.join(bad) if bad else f"reached exactly for 0 <= {iv} < len({L}); other values raise (values -2..3 with len=2 evaluated)")
     rep.floor('C14-D2', found, 2)
 
 
